@@ -52,13 +52,13 @@ pub fn compare_lir(rep: &mut Report, drv: &mut Driver, src: &str, ident: &Value,
                 if w.len() != 3 || w[0] != "ok" { continue; }
                 let want = format!("ok_{}_{}", w[1], w[2]);
                 let got: Vec<&str> = m.split(' ').collect();
-                let ok = got.len() == 2 && got[0] == format!("m={want}") && got[1] == format!("l={want}");
+                let ok = got.len() == 3 && got[0] == format!("m={want}") && got[1] == format!("l={want}") && got[2] == format!("c={want}");
                 rep.evaluations += 1;
                 if ok {
-                    rep.hist("lir-semantics-on-real-mir", "mRun = lRun = spec value");
+                    rep.hist("lir-semantics-on-real-mir", "mRun = lRun = cRun (emitted code of the cg model) = spec value");
                 } else {
                     rep.mismatch(
-                        "LIR layer: the MIR / LIR semantics of Props/C01Lir, run on the real MIR of the program (and on the LIR the model makes of it), do not give the value of the Lean Spec",
+                        "LIR / code-generation layer: the MIR / LIR semantics of Props/C01Lir and the emitted-code semantics of Props/C01Cg, run on the real MIR of the program (on the LIR the model makes of it, on the code the cg model emits for that), do not give the value of the Lean Spec",
                         json!({"case": ident, "args": a, "spec": s, "stages": m}),
                     );
                     rep.hist("lir-semantics-on-real-mir", "DIFFERENT");
